@@ -133,7 +133,9 @@ def run_kani_group(ctx, group):
                 r.reason = "vacuity: mutant twin did not fail"
         if r.status == "fail":
             try:
-                handle_failure(ctx, group, gcfg, hdir, tdir, logdir, r, known, kargs, cbmc_args_for(r.harness))
+                ca = list(cbmc_args_for(r.harness)) + kanirun.resolve_caps(
+                    hdir, tdir, r.harness, gcfg.get("recursion_caps", ()), kargs, r.log)
+                handle_failure(ctx, group, gcfg, hdir, tdir, logdir, r, known, kargs, ca)
             except Exception as e:
                 r.status = "inconclusive"
                 r.reason = "replay machinery failed: %s" % e
@@ -156,7 +158,7 @@ def run_kani_group(ctx, group):
 
     # run all in one pool but with per-harness timeout: wrap
     results = run_pool_var(hdir, target, sel, logdir, lambda h: harness_timeout(pcfg, h, ctx.tier),
-                           ctx.mem_gb, ctx.jobs, kargs, cbmc_args_for, progress)
+                           ctx.mem_gb, ctx.jobs, kargs, cbmc_args_for, progress, gcfg.get("recursion_caps", ()))
     for r in results:
         if r.status == "inconclusive":
             ctx.inconclusive.append("%s: %s" % (r.harness.short, r.reason))
@@ -176,7 +178,7 @@ def keep_log(ctx, r):
         pass
 
 
-def run_pool_var(hdir, base_target, harnesses, logdir, timeout_of, mem_gb, jobs, extra_args, cbmc_args_for, progress):
+def run_pool_var(hdir, base_target, harnesses, logdir, timeout_of, mem_gb, jobs, extra_args, cbmc_args_for, progress, caps=()):
     import shutil
     import subprocess
     results = {}
@@ -194,7 +196,7 @@ def run_pool_var(hdir, base_target, harnesses, logdir, timeout_of, mem_gb, jobs,
                     break
                 h = queue.pop(0)
             lp = os.path.join(logdir, h.name.replace("::", "__") + ".log")
-            r = kanirun.run_one(hdir, tdir, h, lp, timeout_of(h), mem_gb, extra_args, cbmc_args_for(h))
+            r = kanirun.run_one(hdir, tdir, h, lp, timeout_of(h), mem_gb, extra_args, cbmc_args_for(h), caps)
             progress(r, tdir)
             with lock:
                 results[h.name] = r
